@@ -332,6 +332,8 @@ class Item:
         if not pat:
             raise LostAnchor("empty pattern in %s edit" % kind)
         hits = find_seq(self.toks, pat)
+        # only text that came from /repo can be replaced (inserted contract text has line 0)
+        hits = [h for h in hits if all(self.toks[h + k].line != 0 for k in range(len(pat)))]
         # drop overlapping hits
         flt = []
         last = -1
